@@ -8,17 +8,17 @@ CLAIMS = {
   "text": "Theorem C07_precedence_documented (Props/C07.v): for the dispatch configuration and registration tables that translator T1 regenerates from dispatch.py/converters.py on every run, for EVERY world (MROs, predicate truth tables), converter class, options and EVERY finite sequence of public-API operations (registrations of all kinds interleaved with cached/uncached lookups), the hook found for any type in either direction is the documented 4-tier choice (most specific registered MRO class with latest registration; newest accepting predicate/factory/exact-type entry, factories receive the type and the converter iff they ask; born-with entries; fallback). Proved by induction over the operation list with a cache invariant; no bound on history length. Tie: T1 + differential DISP lane (model evaluated by vm_compute vs real converters on generated histories incl. nested positions); a Python re-implementation of the rule is the failing-input search.",
   "note": TB + " Nested occurrence of T inside list[T]/class fields is checked by the lane (observed through real structure/unstructure calls), not by a theorem.",
   "technique": "Coq proof (induction over operation histories, invariant) + AST translator + differential correspondence",
-  "design_ref": "DESIGN.md 5/C07"},
+  "design_ref": "DESIGN.md 4/C07"},
  "C08": {
   "text": "Theorem C08_transparent_partial + C08_immediate (Props/C08.v): for the configuration regenerated from the source, on every converter and every operation sequence whose user factories do not plant a foreign hook in the direct table, every later lookup equals the lookup on the converter that received only the registrations (all interleavings of warming calls, unbounded). The invariant (cache and direct table are sub-graphs of the cache-free lookup) needs exactly the clears the source performs: removing one makes a named lemma of Proofs/SrcObligations.v fail. The unrestricted statement is refuted in Coq (C08_refuted_wrapping_factory = known finding F8) and replayed on the implementation. Tie: T1 + DISP lane in twin mode (warmed converter vs fresh replay) which is also the failing-input search.",
   "note": TB + " Hooks generated for composite types are observed through real calls (nested probes) rather than modelled.",
   "technique": "Coq proof (inductive invariant over interleavings) + AST translator + twin differential testing",
-  "design_ref": "DESIGN.md 5/C08"},
+  "design_ref": "DESIGN.md 4/C08"},
  "C18": {
   "text": "Theorems C18_copy_is_replay and C18_options_forwarded (Props/C18.v): for the configuration regenerated from the source, for every converter, history and override map, the copy answers every lookup like a converter freshly built from the forwarded options that then received the original's registrations, and every construction option (fallback factories included) is forwarded. Unbounded in history; both classes. Isolation after the copy is vacuous in a functional model: it is decided by T1 (copy builds a new instance, containers rebuilt) plus the DISP lane in copy mode (diverging registrations, deepcopy, global converter untouched).",
   "note": TB + " Preconf subclasses are exercised only through copy() of Converter/BaseConverter in this lane.",
   "technique": "Coq proof (copy = replay of registrations) + AST translator + differential correspondence",
-  "design_ref": "DESIGN.md 5/C18"},
+  "design_ref": "DESIGN.md 4/C18"},
 }
 
 TB_TPL = ("Trusted: Coq 8.16.1 kernel incl. vm_compute; translator T1 (template flags of gen/__init__.py); the Python TPL lane (class generator, tagging handlers, "
@@ -30,60 +30,60 @@ CLAIMS["C04"] = {
   "text": "Theorem C04_templates_agree (Props/C04.v): for every payload value type, class definition (any number/order/mix of required, defaulted, factory, kw_only, init=False, aliased, converter attributes), generator options, overrides, per-attribute handlers and EVERY payload object (dict or junk, as a record of the operations the generated code performs), the detailed-validation template and the fast template both reject or both accept with attribute-wise equal instances; C04_generation: hook creation cannot fail in one mode only. Proved by showing both templates refine one order-free specification (Proofs/TemplatesProofs.v: detailed_refines_spec, fast_refines_spec; positional vs keyword binding of __init__ arguments by a permutation argument). Template flags (errors re-checked after instantiation, keyword arguments emitted last) are regenerated from gen/__init__.py by T1 on every run: reverting fix F1/F2 breaks the named obligations in Proofs/SrcObligationsGen.v. Tie: TPL lane (Templates.v evaluated by vm_compute vs the real make_dict_structure_fn hooks on generated classes x payloads, both modes); the pairwise comparison on the implementation is the failing-input search.",
   "note": TB_TPL + " Collection hooks (twin loops in converters.py/cols.py) and TypedDict templates are exercised by oracles only, not yet by a theorem.",
   "technique": "Coq proof (refinement of both templates to one spec) + AST translator + differential correspondence",
-  "design_ref": "DESIGN.md 5/C04"}
+  "design_ref": "DESIGN.md 4/C04"}
 CLAIMS["C10"] = {
   "text": "Theorems of Props/C10.v over the class templates: C10_forbid_adds_only_the_extra_key_check (enabling the flag changes the specification both templates refine in exactly one way: payloads with a key outside the accepted key set -- computed after renames/aliases -- are rejected), C10_fast/detailed_error_names_exactly_the_extras (the error carries the class and exactly the unknown keys; in detailed mode as the last member of the class group), C10_extras_inert (flag off: extending a dict payload with keys outside the accepted set cannot change the outcome). All classes, option/override combinations, handlers and payloads; no bound. Tie: T1 + TPL lane with extra keys incl. original names of renamed attributes. Nesting depth, NamedTuple-from-dict, TypedDict and the tagged-union tag key are decided by direct oracles on the implementation; known finding F4 (TypedDict keeps unknown keys) is reported as KNOWN-FINDING.",
   "note": TB_TPL + " TypedDict templates are not modelled yet: that part of the statement is checked by the oracle only.",
   "technique": "Coq proof over executable class-template model + AST translator + differential correspondence + direct oracle",
-  "design_ref": "DESIGN.md 5/C10"}
+  "design_ref": "DESIGN.md 4/C10"}
 
 CLAIMS["C09"] = {
   "text": "Theorems of Props/C09.v over the class templates, for every class definition, option/override combination with pairwise distinct final keys, instance and per-attribute handlers: C09_exact_key_set / C09_unstructure_total (the generated unstructure hook never fails and emits exactly the configured key set: final keys after rename/use_alias, omitted attributes absent, default-valued ones absent exactly when omit_if_default applies) and C09_roundtrip_detailed / C09_roundtrip_fast (the structure hook generated with the same customisation, in either validation mode, accepts that dict and restores every handled attribute, given inverse handlers, no field converters and defaults for omitted __init__ arguments). C09_generation_partial: attribute order cannot break generation (fix F1); key text can (open finding F3) -- that clause of the statement is refuted on the implementation and reported as KNOWN-FINDING, as is F22 (omit_if_default ignores field converters). Tie: T1 flags + TPL lane (un_gen evaluated by vm_compute vs real make_dict_unstructure_fn; round trip and key-set oracles on the implementation). TypedDict and NamedTuple customisation: direct oracles (finding F12 fixed).",
   "note": TB_TPL + " TypedDict templates (gen/typeddicts.py) and the NamedTuple pseudo-attributes are not modelled: oracle only.",
   "technique": "Coq proof (exact output of the unstructure template; round trip via the structure specification) + differential correspondence + direct oracle",
-  "design_ref": "DESIGN.md 5/C09"}
+  "design_ref": "DESIGN.md 4/C09"}
 
 CLAIMS["C20"] = {
   "text": "Theorems of Props/C20.v over Model/FieldConv.v (the handler choice of find_structure_handler at generation time and of _structure_attribute at call time): C20_generated_follows_rule and C20_interpretive_follows_rule (the structured value is K(hook(raw)) when a hook exists for T, K(raw) when the field is untyped or no hook can be found, always K(raw) under prefer_attrib_converters; fields without a converter unaffected), C20_agree_partial (Converter and BaseConverter agree) and C20_refuted_lazy (they do not for container hooks that fail lazily = known finding F15, reported as KNOWN-FINDING). The decision domain is finite, so the theorems are closed by complete case analysis, and the tie to the code is an EXHAUSTIVE correspondence run: every cell of the domain x class shapes x {Converter, BaseConverter} x validation mode x strategy is executed on the real library and compared with the model inside Coq on every run.",
   "note": "Trusted: Coq kernel; the correspondence harness. The model is hand-written (not generated from the AST): an edit to gen/_shared.py or converters.py _structure_attribute that changes a cell is caught by the exhaustive run, not by a broken proof.",
   "technique": "Coq proof by complete case analysis + exhaustive differential correspondence over the finite decision domain",
-  "design_ref": "DESIGN.md 5/C20"}
+  "design_ref": "DESIGN.md 4/C20"}
 
 CLAIMS["C15"] = {
   "text": "Theorems of Props/C15.v over Model/Passthrough.v (make_structure_native_union / contains_native_union): C15_rule (for every subclass relation, configured set S, union U of any size and order -- classes, NewTypes, literals, spill-over members -- and every value, the hook passes the value through unchanged exactly when its class is an accepted member of U (configured subclasses included) or it is a literal of U of the same class and value; otherwise it is handed to exactly the unhandled members, or rejected when there are none) and C15_order_independent (same outcome for every permutation of U's members, spill-over compared as a set). The literal check (class,value pairs -- fix F6) is regenerated from strategies/_unions.py by T1; with the unfixed check the model refutes the rule (C15_unpaired_refuted_lookalike) and proves it only for rectangular literal sets. Tie: T1 + PASS lane (model evaluated by vm_compute vs the real hook on generated unions x class sets x look-alike probe values, applicability predicate included); a Python re-implementation of the rule and the all-rotations comparison are the failing-input search.",
   "note": "Trusted: Coq kernel incl. vm_compute; T1; the PASS lane. Modelled-not-verified: Python == / hash of the probe values (equality classes are computed by the real dict), issubclass (oracle table), typing's normalisation of Union/Literal (the union is encoded from its real __args__).",
   "technique": "Coq proof (rule + permutation invariance) + AST translator + differential correspondence",
-  "design_ref": "DESIGN.md 5/C15"}
+  "design_ref": "DESIGN.md 4/C15"}
 
 CLAIMS["C13"] = {
   "text": "Theorems of Props/C13.v over Model/Tagged.v (configure_tagged_union over ABSTRACT member hooks, all four structure variants): C13_out (unstructuring as the union yields the member's own dict plus exactly one extra key, the tag), C13_in (with an injective tag generator that payload reaches the hook of the SAME member, with the tag removed from a copy under forbid_extra_keys -- so it is never an extra key -- or carried along otherwise), C13_missing_tag / C13_unknown_tag (default member when configured, KeyError otherwise), C13_members_untouched (Core A: registering the two exact-type hooks cannot change the lookup of any other type, for the dispatch configuration regenerated from the source). All unions, tag generators, tag names, defaults, payloads; no bound. Tie: T1 (routing, dispatch) + TAG lane: recording member hooks observe which member hook is called with which dict and the model is evaluated on the same configurations by vm_compute; the real generated hooks are the oracle (payload = member dict + tag, round trip returns an equal instance of the same class, default/unknown tag, member types unchanged before/after, argument never mutated).",
   "note": "Trusted: Coq kernel incl. vm_compute; T1; the TAG lane. The member hooks themselves are abstract in the theorems (their round trip is C01/C09's business); the dict strategy only (documented).",
   "technique": "Coq proof over abstract member hooks + Core A lemma + differential correspondence with recording hooks",
-  "design_ref": "DESIGN.md 5/C13"}
+  "design_ref": "DESIGN.md 4/C13"}
 
 CLAIMS["C12"] = {
   "text": "Theorems of Props/C12.v over Model/Disambig.v (create_default_dis_func transcribed step by step; every iteration over a Python set takes its order from an explicit, universally quantified argument = the hash seed): C12_keys_never_wrong (whenever the unique-required-key pass succeeds -- for ANY member order, ANY set-iteration order, any number of classes with arbitrarily overlapping attributes, defaults, init=False attributes and renames -- the payload of an instance of a member, i.e. any key set between the member's usable keys and its attribute names, resolves to that member and to no other; proved by an invariant over the greedy loop), C12_literal_bucket_contains_class (the bucket selected by an instance's Literal value contains its class), C12_refuses_second_fallback (a second member without usable unique key makes creation fail). Order independence of the RESULT follows from the quantification over all orders; order independence of SUCCESS is refuted in Coq and on the implementation (C12_success_order_dependent_refuted = known finding F23, KNOWN-FINDING). The init=False rule (fix F7) is regenerated from disambiguators.py by T1. Tie: T1 + DIS lane (creation success and the class each payload resolves to, model evaluated by vm_compute vs real converters with recording member hooks, all rotations + permutations); oracle = class of the real round trip; the whole battery is re-run in subprocesses under other PYTHONHASHSEEDs.",
   "note": "Trusted: Coq kernel incl. vm_compute; T1; the DIS lane. Modelled-not-verified: attrs/dataclass field introspection (adapted_fields, fields_dict), typing.Literal args, dict/set semantics. The best-discriminator selection among several Literal attributes is modelled but only the bucket property is proved.",
   "technique": "Coq proof (invariant over the greedy loop, all orders and set-iteration orders) + AST translator + differential correspondence + hash-seed sweep",
-  "design_ref": "DESIGN.md 5/C12"}
+  "design_ref": "DESIGN.md 4/C12"}
 
 CLAIMS["C19"] = {
   "text": "PARTIAL. Theorem C19_no_spurious_errors_partial (Props/C19.v) over Model/Threads.v: threads are stack machines running the hook generators (enter = check/insert the `already_generating` working set, one step per field reference through the caching or the non-caching lookup, leave = remove + cache), sharing the lru cache; for the working-set scope T1 reads off gen/_consts.py (threading.local), ANY number of threads, ANY class graph (deep, recursive, overlapping), ANY first-use requests and EVERY schedule, no thread ever gets the cycle-signalling RecursionError outside a generator that catches it -- proved by the per-thread invariant `working set = classes of the generators on this thread's stack`. C19_shared_working_set_refuted: with a shared working set the model exhibits the failure (non-vacuity). Tie: T1 + THR lane with FORCED schedules (a hook factory on a marker field type parks a thread mid-generation; 2-3 threads, cyclic and diamond graphs, random macro-step schedules), each structure-direction schedule run twice -- working set as in the source, and rebound by the harness to a shared object (what-if) -- and compared with the model under the matching scope, so the model's failure prediction itself is validated against the real generators; plus free-running stress against a sequential reference. What a theorem cannot reach and is assumed: CPython's GIL, atomicity of dict/set/lru_cache operations and attribute access, memory visibility.",
   "note": "Trusted: Coq kernel incl. vm_compute; T1 (threads section); the THR lane and its monkeypatch of `already_generating` in the five importing modules. Modelled-not-verified: everything about the runtime (GIL, container atomicity); results are compared at the level 'which requests completed / which thread failed', hooks being behaviourally independent of direct vs late binding.",
   "technique": "Coq proof (per-thread invariant over all schedules) + AST translator + forced-schedule differential testing incl. what-if shared scope",
-  "design_ref": "DESIGN.md 5/C19"}
+  "design_ref": "DESIGN.md 4/C19"}
 
 CLAIMS["C14"] = {
   "text": "PARTIAL (automatic variant proved; union-strategy variant decided by oracle). Theorem C14_automatic_exact_class (Props/C14.v) over Model/Subclasses.v + Model/Disambig.v: for ANY finite class tree (depth, branching, shared and own attributes, field-less and defaulted-only subclasses), any hash-dependent iteration orders (of the set of classes in _get_union_type and of attribute-name sets), whenever include_subclasses was accepted (a disambiguator exists at every node with subclasses), for every class K of the tree and every x that is K or a descendant, the hook registered for K hands the payload of an instance of x to x itself (<= 2 hops) -- a corollary of the C12 invariant proof applied at each node; the init=False rule is regenerated from the source by T1. Tie: T1 + SUB lane (random trees; the class every payload lands on, model evaluated by vm_compute vs the real converter). Oracle for BOTH strategies (automatic, tagged union; forbid on/off; explicit shuffled subclasses tuples): structure(unstructure(x, K), K) is equal to x and of x's exact class for every (K, x). Known finding F16 (leaf class + tagged strategy + forbid_extra_keys) is reported as KNOWN-FINDING.",
   "note": "Trusted: Coq kernel incl. vm_compute; T1; the SUB lane. Not modelled: the two-pass registration of the union-strategy variant, __subclasses__() discovery and the gc.collect() workaround, overrides. Acceptance of the automatic variant can depend on the hash-dependent member order (finding F23 of C12); such acceptance mismatches between model order and real order are counted in the evidence, not compared.",
   "technique": "Coq proof (corollary of the disambiguation invariant, all tree shapes) + differential correspondence + round-trip oracle for both strategies",
-  "design_ref": "DESIGN.md 5/C14"}
+  "design_ref": "DESIGN.md 4/C14"}
 
 CLAIMS["C17"] = {
   "text": "Theorems of Props/C17.v over Model/Generics.v (generate_mapping: TypeVar NAME -> argument; deep_copy_with: rewrite by NAME; the generators' resolve step) against substitution by TypeVar IDENTITY (the monomorphised copy): C17_annotations_monomorphised (for every parameter list with pairwise distinct names, every tuple of concrete arguments and every annotation -- parameter bare, inside containers, Optional, nested generics, Annotated inside a container, any depth -- cattrs' resolved annotation IS the monomorphised annotation) and C17_inherited_from_concrete_base (Child(Base[int])); by structural induction over type expressions with a custom induction principle. Where a hypothesis fails the model refutes the statement, and the refutation is replayed on the implementation (KNOWN-FINDINGs F14 TypeVar name reuse, F13 class named like a TypeVar, F25 annotation that IS Annotated[T,..], F26 base parametrised by the child's TypeVar). Tie: GEN lane -- the annotation the generator resolved for each attribute is read off the generated hook (its __c_type_* defaults) and compared with the model by vm_compute; the oracle builds the hand-substituted non-generic clone and compares unstructure, structure and structure-of-corrupted-payload results, with two parametrisations interleaved on one converter (no interference) and the unbound-parameter refusal.",
   "note": "Trusted: Coq kernel incl. vm_compute; the GEN lane (its own identity substitution on typing objects, the type encoder). Modelled-not-verified: typing's normalisation of subscripted generics (Optional flattening etc.), get_args/get_origin/copy_with. Not modelled (oracle only / not covered): generic TypedDicts, PEP 695 syntax, PEP 696 defaults, generic type aliases. The model is hand-written: an edit to _generics.py is caught by the per-attribute correspondence, not by a broken proof.",
   "technique": "Coq proof (structural induction over type expressions) + differential correspondence on resolved annotations + monomorphised-clone oracle",
-  "design_ref": "DESIGN.md 5/C17"}
+  "design_ref": "DESIGN.md 4/C17"}
 
 TB_CONV = ("Trusted: Coq 8.16.1 kernel incl. vm_compute; translator T1 (template flags of gen/__init__.py); the Python CONV lane (world / type / value / mutation generators, "
            "encoder of Python objects into model values, oracle tables computed by calling the real constructors). Modelled-not-verified: which born-with hook serves which "
@@ -104,7 +104,7 @@ CLAIMS["C02"] = {
   "note": TB_CONV + " Not in the model (oracle/lane only or not covered): TypedDict / NamedTuple / union / generic positions inside nested types (their class-level behaviour is C04/C09/C10/C12/C13/C17), "
           "deque, Counter, defaultdict, Final, type aliases, Path; soundness under the tuple strategy holds only for classes without kw_only / init=False attributes (F27) and has no theorem yet.",
   "technique": "Coq proof (induction on fuel over an executable nested model; class-level soundness of the four templates) + AST translator + differential correspondence + direct oracles",
-  "design_ref": "DESIGN.md 5/C02"}
+  "design_ref": "DESIGN.md 4/C02"}
 
 CLAIMS["C01"] = {
   "text": "Theorem C01_roundtrip (Props/C01.v) over the nested executable model Model/Conv.v: for EVERY environment of classes and enums, every type expression of the modelled universe "
@@ -119,7 +119,7 @@ CLAIMS["C01"] = {
           "no totality theorem (that unstructure succeeds on every value is checked by the lane, non-vacuity by C01_nonvacuous_*). TypedDict / NamedTuple / unions / generics inside nested types: "
           "lane and oracle of their own properties only. Known findings touching C01: F27 (tuple strategy with kw_only / init=False attributes), F10 (BaseConverter with init=False attributes).",
   "technique": "Coq proof (same-fuel induction over an executable nested model; Leibniz round trip of the class templates) + AST translator + differential correspondence + direct oracle",
-  "design_ref": "DESIGN.md 5/C01"}
+  "design_ref": "DESIGN.md 4/C01"}
 
 CLAIMS["C03"] = {
   "text": "Theorem C03_output_is_primitive (Props/C03.v) over the nested executable model: for EVERY environment (enum values primitive), type expression of the modelled universe and value x of "
@@ -133,7 +133,7 @@ CLAIMS["C03"] = {
           "dict_factory / unstruct_collection_overrides settings (not modelled). BaseConverter has no unstructure hook for NewType / Annotated / heterogeneous tuples (the fallback returns the value unchanged): "
           "treated as outside BaseConverter's documented support, not generated for its oracle.",
   "technique": "Coq proof (induction on fuel over an executable nested model; class-level value provenance) + differential correspondence + independent encoder oracle",
-  "design_ref": "DESIGN.md 5/C03"}
+  "design_ref": "DESIGN.md 4/C03"}
 
 CLAIMS["C06"] = {
   "text": "Props/C06.v. Class level (any payload value type, any class whose attributes are all __init__ arguments, converter-default options, EVERY per-attribute handlers and EVERY dict payload): "
@@ -145,7 +145,7 @@ CLAIMS["C06"] = {
           "mapping-shaped inputs is necessary.",
   "note": TB_CONV + " prefer_attrib_converters / field converters: C20. init=False attributes are outside the common subset (F10), heterogeneous tuples / NewType over classes / Annotated outside BaseConverter's support.",
   "technique": "Coq proof (class-level refinement of one specification by all three templates; nested corollary of the round-trip theorem) + differential correspondence + pairwise oracle",
-  "design_ref": "DESIGN.md 5/C06"}
+  "design_ref": "DESIGN.md 4/C06"}
 
 CLAIMS["C05"] = {
   "text": "Props/C05.v over the exception trees Model/Conv.v builds and Model/ConvErr.v's transform_error ([paths]); no hypothesis on the payload, so every number and placement of faults is covered. "
@@ -161,7 +161,7 @@ CLAIMS["C05"] = {
           "fault-injection relation. Leaf exception CLASSES and message texts are not modelled (format_exception); TypedDict positions are decided by the oracle only; set / frozenset / deque loops "
           "have the same shape as the sequence loop but no separate theorem.",
   "technique": "Coq proof (exact characterisation of every error-collecting loop + compositional transform_error) + differential correspondence of exception trees + fault-injection oracle",
-  "design_ref": "DESIGN.md 5/C05"}
+  "design_ref": "DESIGN.md 4/C05"}
 
 CLAIMS["C11"] = {
   "text": "Props/C11.v over Model/Alias.v (a store of mutable dicts addressed by object id; a hook that edits a working dict by an ARBITRARY sequence of res[k]=v / del res[k] / res.pop(k) / "
@@ -177,7 +177,7 @@ CLAIMS["C11"] = {
   "note": "Trusted: Coq kernel incl. vm_compute; translator T1 (section `alias`: a syntactic dominance check over four small functions and a regex over the generated-code string constants of gen/typeddicts.py); "
           "the ALIAS lane (Python id()-based observation). Modelled-not-verified: dict.copy() is shallow and allocates a new object; CPython object identity. Print Assumptions: closed under the global context.",
   "technique": "Coq proof (frame property of copy-then-edit hooks over an object store, for all edit sequences) + AST translator (copy dominates every in-place edit) + identity-snapshot differential testing",
-  "design_ref": "DESIGN.md 5/C11"}
+  "design_ref": "DESIGN.md 4/C11"}
 
 CLAIMS["C16"] = {
   "text": "PARTIAL. Theorem C16_json_dumps_total (Props/C16.v): the JSON converter is modelled as the plain Converter plus a context-free post-processing of its unstructured form (Model/Preconf.v jsonify: "
@@ -191,6 +191,6 @@ CLAIMS["C16"] = {
           "every dataclass to msgspec: user hooks bypassed, private attributes of nested attrs classes dropped) -- fixed in /repo d4e1417; F29 (msgspec converter cannot create the hook of a self-referential "
           "class: RecursionError) -- open known finding; F19 (bool-keyed mappings in text formats) -- treated as outside the documented limits.",
   "technique": "Coq proof (encodability of the post-processed unstructured form, on top of the primitive-output theorem) + differential correspondence of the JSON layer + round-trip and user-hook oracles on the real libraries",
-  "design_ref": "DESIGN.md 5/C16"}
+  "design_ref": "DESIGN.md 4/C16"}
 
 NOT_APPLICABLE = {}
